@@ -173,6 +173,11 @@ func genC08(t *Tape, tier string) *Scenario {
 	}
 	steps = append(steps, all...)
 	cs := ConnScript{Lat: drawLat(t), SrvCaps: drawCaps(t), Steps: steps}
+	if t.Chance(1, 8) {
+		// the n-th reply write fails (and every later one): the peer is gone as far as writing is concerned
+		cs.SrvFaults.FailWriteAt = 1 + t.Intn(6)
+		cs.AwaitTO = 5 * time.Second
+	}
 	cs.defaults()
 	cs.IdleEnd = 30 * time.Second
 	sc.Conns = []ConnScript{cs}
